@@ -60,12 +60,52 @@ class ForkSignal(Exception):
         self.results = results
 
 
+def subst_term(t, old, new):
+    """t with every occurrence of the subterm old replaced by new"""
+    if t == old:
+        return new
+    if isinstance(t, tuple):
+        return tuple(subst_term(x, old, new) if isinstance(x, tuple) else x for x in t)
+    return t
+
+
+def size_of(t):
+    """number of elements of a container value: resize(x, n) has n, a container filled element by element keeps its size"""
+    if t[0] == 'call' and t[1] == 'container:resize' and len(t[2]) >= 2:
+        return t[2][1]
+    if t[0] == 'call' and t[1] == 'vfill':
+        return size_of(t[2][0])
+    return ('size', t)
+
+
+def all_const_stores(t):
+    """an array value written element by element at constant positions: elemstore(...elemstore(<uninitialised>, i, v)..., j, w)"""
+    while t[0] == 'call' and t[1] == 'elemstore' and len(t[2]) == 3:
+        if t[2][1][0] != 'num':
+            return False
+        t = t[2][0]
+    return t[0] == 'unk'
+
+
+class _Writes(dict):
+    """trace.writes, which also notes the call stack at each write (who, among the inlined callees, performs it)"""
+
+    def __init__(self, ev):
+        dict.__init__(self)
+        self.ev = ev
+
+    def setdefault(self, k, d=None):
+        self.ev.trace.write_stacks.setdefault(k, set()).add(tuple(self.ev.call_stack))
+        return dict.setdefault(self, k, d)
+
+
 class Trace:
     """side information gathered during evaluation of one entry function"""
 
     def __init__(self):
         self.pre_reads = {}     # member path -> first location read while not yet written on that path
         self.writes = {}        # member path -> [locations]
+        self.write_stacks = {}  # member path -> set of call stacks (qualified names of the inlined callees, outermost first) active at a write
         self.unknown_calls = []  # (qname, loc)
         self.lib_calls = []      # every call to a function outside the repository (qname, loc)
         self.inlined = set()
@@ -118,6 +158,8 @@ class Evaluator:
         self.freeze = {}               # local / member name -> symbol: reads yield the symbol, assigned values are recorded
         self.vecmodel = False          # concrete model of std::vector members/locals of constant length (init_var analyses)
         self.trace = Trace()
+        self.call_stack = []
+        self.trace.writes = _Writes(self)
         self.memo = {}
 
     # ------------------------------------------------------------ expressions
@@ -145,6 +187,12 @@ class Evaluator:
                       'UserDefinedConversion', 'BaseToDerived', 'NullToPointer', 'BitCast'):
                 if ck == 'FloatingToIntegral':
                     return ('call', 'trunc', (self.E(e['e'], P, fr),))
+                if ck == 'ArrayToPointerDecay':
+                    lv_ = self.lvalue(e['e'], P, fr)
+                    if lv_ is not None:
+                        cur_ = self.lload(lv_, P)
+                        if cur_[0] != 'arr':
+                            return ('lptr', lv_[0], lv_[1], lv_[2], 0)
                 return self.E(e['e'], P, fr)
             return ('unk', 'cast ' + ck)
         if k in ('int', 'float'):
@@ -230,6 +278,8 @@ class Evaluator:
                     if path is not None:
                         return self.read_member(path + '*', P, e.get('l'))
                 t = self.E(e['e'], P, fr)
+                if t[0] == 'lptr':
+                    return self.lload((t[1], t[2], t[3] + (('i', t[4]),)), P)
                 if t[0] == 'addr' and t[1][0] == 'lref':
                     v_l = P.locals.get((t[1][1], t[1][2]))
                     return v_l if v_l is not None else ('unk', 'uninitialised local ' + str(t[1][3]))
@@ -332,6 +382,10 @@ class Evaluator:
             return self.call(e, P, fr)
         if k == 'index':
             bt, it = self.E(e['base'], P, fr), self.E(e['idx'], P, fr)
+            if bt[0] == 'lptr':
+                if it[0] == 'num' and it[1].denominator == 1:
+                    return self.lload((bt[1], bt[2], bt[3] + (('i', bt[4] + int(it[1])),)), P)
+                return ('elem', self.lload((bt[1], bt[2], bt[3]), P), ('add', (num(bt[4]), it)) if bt[4] else it)
             return self.elem_of(bt, it)
         if k == 'construct':
             ty_ = str(e.get('t', '')).replace('const ', '')
@@ -457,6 +511,127 @@ class Evaluator:
                 return t[1] + '.' + e['n']
         return None
 
+    # ------------------------------------------------------------ aggregates held in locals (structs, arrays, arrays of structs)
+    def lvalue(self, e, P, fr, depth=0):
+        """(frame id, local id, path) when e designates a sub-object of a local aggregate: path is a tuple of ('f', field) and
+        ('i', constant index) steps.  Reference parameters / reference locals and pointers obtained by array decay are followed."""
+        if depth > 12 or e is None:
+            return None
+        t = strip(e, casts=True)
+        k = t.get('k')
+        if k == 'local':
+            cur = P.locals.get((fr['id'], t['id']))
+            if cur is not None and cur[0] == 'alias':
+                return self.lvalue(cur[1], P, cur[2], depth + 1)
+            if cur is not None and cur[0] in ('lptr', 'cvec'):
+                return None
+            return (fr['id'], t['id'], ())
+        if k == 'param':
+            a = fr['args'][t['i']] if not t.get('foreign') and t['i'] < len(fr['args']) else None
+            if a is not None and a[0] == 'alias':
+                return self.lvalue(a[1], P, a[2], depth + 1)
+            return None
+        if k == 'member':
+            if t.get('arrow') or self.mpath(t, P, fr) is not None:
+                return None
+            b = self.lvalue(t['base'], P, fr, depth + 1)
+            return None if b is None else (b[0], b[1], b[2] + (('f', t['n']),))
+        if k == 'index':
+            iv = self.E(t['idx'], P, fr)
+            if not (iv[0] == 'num' and iv[1].denominator == 1):
+                return None
+            pv = self.pointer_of(t['base'], P, fr)
+            if pv is not None:
+                return (pv[1], pv[2], pv[3] + (('i', pv[4] + int(iv[1])),))
+            b = self.lvalue(t['base'], P, fr, depth + 1)
+            return None if b is None else (b[0], b[1], b[2] + (('i', int(iv[1])),))
+        if k == 'un' and t.get('op') == '*':
+            pv = self.pointer_of(t['e'], P, fr)
+            if pv is not None:
+                return (pv[1], pv[2], pv[3] + (('i', pv[4]),))
+        return None
+
+    def pointer_of(self, e, P, fr):
+        """the ('lptr', frame, local, path, offset) value of a pointer-typed expression, if it is one"""
+        t = strip(e, casts=True)
+        if t.get('k') == 'param' and not t.get('foreign') and t['i'] < len(fr['args']) and fr['args'][t['i']][0] == 'lptr':
+            return fr['args'][t['i']]
+        if t.get('k') == 'local':
+            cur = P.locals.get((fr['id'], t['id']))
+            if cur is not None and cur[0] == 'lptr':
+                return cur
+            if cur is not None and cur[0] == 'alias':
+                return self.pointer_of(cur[1], P, cur[2])
+        if t.get('k') == 'bin' and t.get('op') in ('+', '-'):
+            v = self.E(t, P, fr)
+            if v[0] == 'lptr':
+                return v
+        return None
+
+    @classmethod
+    def agg_get(cls, val, path):
+        for st in path:
+            if val is None:
+                return ('unk', 'uninitialised aggregate')
+            if st[0] == 'f':
+                if val[0] != 'struct':
+                    return ('field', val, st[1])
+                val = val[1].get(st[1], ('unk', 'unset field ' + st[1]))
+            else:
+                if val[0] == 'unk':
+                    return val
+                val = cls.elem_of(val, num(st[1]))
+        return val
+
+    @classmethod
+    def agg_upd(cls, val, path, v):
+        if not path:
+            return v
+        st = path[0]
+        if st[0] == 'f':
+            d_ = dict(val[1]) if val is not None and val[0] == 'struct' else {}
+            d_[st[1]] = cls.agg_upd(d_.get(st[1]), path[1:], v)
+            return ('struct', d_)
+        i = st[1]
+        if val is not None and val[0] == 'arr' and 0 <= i < len(val[1]):
+            l_ = list(val[1])
+            l_[i] = cls.agg_upd(l_[i], path[1:], v)
+            return ('arr', tuple(l_) if isinstance(val[1], tuple) else l_)
+        old = val if val is not None else ('unk', 'uninitialised container')
+        cur = cls.elem_of(old, num(i)) if old[0] != 'unk' else None
+        if cur is not None and cur[0] == 'elem':
+            cur = None
+        nv = cls.agg_upd(cur, path[1:], v)
+        if old[0] == 'call' and all_const_stores(old):
+            # keep one store per position
+            chain = []
+            t_ = old
+            while t_[0] == 'call' and t_[1] == 'elemstore':
+                chain.append((t_[2][1], t_[2][2]))
+                t_ = t_[2][0]
+            out = t_
+            for ix, vx in reversed(chain):
+                if ix != num(i):
+                    out = ('call', 'elemstore', (out, ix, vx))
+            return ('call', 'elemstore', (out, num(i), nv))
+        return ('call', 'elemstore', (old, num(i), nv))
+
+    def ptr_elems(self, pv, n, P):
+        """the n elements a pointer value designates, or None"""
+        if pv[0] == 'lptr':
+            return [self.lload((pv[1], pv[2], pv[3] + (('i', pv[4] + i),)), P) for i in range(n)]
+        base, off = (pv[1], pv[2]) if pv[0] == 'aptr' else (pv, 0)
+        if base[0] == 'arr' or (base[0] == 'call' and base[1] == 'elemstore' and all_const_stores(base)):
+            out = [self.elem_of(base, num(off + i)) for i in range(n)]
+            return None if any(x[0] == 'elem' for x in out) else out
+        return None
+
+    def lstore(self, lv, v, P):
+        P.locals[(lv[0], lv[1])] = self.agg_upd(P.locals.get((lv[0], lv[1])), lv[2], v)
+
+    def lload(self, lv, P):
+        return self.agg_get(P.locals.get((lv[0], lv[1])), lv[2])
+
     def read_member(self, path, P, loc):
         if path in P.mem:
             if path in self.freeze:
@@ -497,6 +672,10 @@ class Evaluator:
                 self.trace.writes.setdefault(path, []).append(loc)
                 P.events.append(('write', path, loc))
                 return
+            lv_ = self.lvalue(t, P, fr)
+            if lv_ is not None:
+                self.lstore(lv_, v, P)
+                return
             # field of something reached through an iterator / pointer (it->second = v): keep the store as an event
             tgt = self.E(t, P, fr)
             P.events.append(('store', (tgt, v), loc))
@@ -520,6 +699,9 @@ class Evaluator:
             return
         if k == 'un' and t['op'] == '*':
             p = self.E(t['e'], P, fr)
+            if p[0] == 'lptr':
+                self.lstore((p[1], p[2], p[3] + (('i', p[4]),)), v, P)
+                return
             if p[0] == 'addr' and p[1][0] == 'lref':
                 P.locals[(p[1][1], p[1][2])] = v
                 return
@@ -578,8 +760,17 @@ class Evaluator:
             if bt.get('k') == 'local':
                 idx = t['idx'] if k == 'index' else t['args'][1]
                 old = P.locals.get((fr['id'], bt['id']), ('unk', 'uninitialised container'))
-                P.locals[(fr['id'], bt['id'])] = ('call', 'elemstore', (old, self.E(idx, P, fr), v))
+                iv_ = self.E(idx, P, fr)
+                if k == 'index' and iv_[0] == 'num' and iv_[1].denominator == 1 and old[0] != 'lptr':
+                    self.lstore((fr['id'], bt['id'], (('i', int(iv_[1])),)), v, P)
+                    return
+                P.locals[(fr['id'], bt['id'])] = ('call', 'elemstore', (old, iv_, v))
                 return
+            if k == 'index':
+                lv_ = self.lvalue(t, P, fr)
+                if lv_ is not None:
+                    self.lstore(lv_, v, P)
+                    return
             # element of something reached through a pointer / reference (array[i] = v with array a parameter)
             idx = t['idx'] if k == 'index' else t['args'][1]
             P.events.append(('write-through', ('elem', self.E(base, P, fr), self.E(idx, P, fr)), loc, v))
@@ -639,6 +830,20 @@ class Evaluator:
                 if tv_ is False:
                     return args[0]
                 return ('ite', c_, args[1], args[0])
+            if n in ('accumulate', 'inner_product') and q.startswith('std::') and len(args_e) == (3 if n == 'accumulate' else 4):
+                cnt = self.array_pointer(args[1], args[0], '-')
+                if cnt is not None and cnt[0] == 'num' and 0 <= cnt[1] <= 64:
+                    xs = self.ptr_elems(args[0], int(cnt[1]), P)
+                    ys = self.ptr_elems(args[2], int(cnt[1]), P) if n == 'inner_product' else None
+                    if xs is not None and (ys is not None or n == 'accumulate'):
+                        acc = args[-1]
+                        ity = str(strip(args_e[-1]).get('t', '')) if isinstance(strip(args_e[-1]), dict) else ''
+                        for i_ in range(int(cnt[1])):
+                            term_ = xs[i_] if ys is None else ('mul', (xs[i_], ys[i_]))
+                            acc = ('add', (acc, term_))
+                            if ity in self.INT_RANGES:
+                                acc = ('call', 'trunc', (acc,))      # the accumulator has the (integer) type of the initial value
+                        return acc
             if n == 'accumulate' and len(args_e) == 3 and q.startswith('std::'):
                 b_, e_ = strip(args_e[0], casts=True), strip(args_e[1], casts=True)
                 while b_.get('k') == 'construct' and len(b_['args']) == 1:
@@ -648,14 +853,21 @@ class Evaluator:
                 if b_.get('k') == 'call' and b_.get('n') in ('begin', 'cbegin') and e_.get('k') == 'call' and e_.get('n') in ('end', 'cend') and \
                         b_.get('obj') is not None and e_.get('obj') is not None:
                     vb, ve = self.E(b_['obj'], P, fr), self.E(e_['obj'], P, fr)
+                    if vb == ve and vb[0] == 'call' and vb[1] == 'vfill' and size_of(vb[2][0]) == vb[2][1] and str(strip(args_e[2]).get('t', '')) not in self.INT_RANGES:
+                        # every element was written by the fill loop that precedes: sum over i < N of the element expression
+                        return ('add', (args[2], ('call', 'sumfill', (vb[2][1], vb[2][2]))))
                     if vb == ve:
+                        ity_ = strip(args_e[2])
+                        if isinstance(ity_, dict) and str(ity_.get('t', '')) in self.INT_RANGES:
+                            # the accumulator has the integer type of the initial value: every partial sum is truncated
+                            return ('call', 'int_accumulate', (args[2], vb))
                         return ('add', (args[2], ('call', 'vsum', (vb,))))
             if self.vecmodel:
                 r = self.vec_call(e, n, obj, args_e, args, P, fr, loc)
                 if r is not None:
                     return r
             if n == 'size' and obj is not None:
-                return ('size', self.E(obj, P, fr))
+                return size_of(self.E(obj, P, fr))
             if n in ('at',) and obj is not None:
                 return ('elem', self.E(obj, P, fr), args[0])
             if n == 'signaling_NaN' or n == 'quiet_NaN':
@@ -848,9 +1060,23 @@ class Evaluator:
         def ap(t):
             if t[0] == 'aptr':
                 return t[1], t[2]
-            if t[0] == 'arr':
+            if t[0] == 'arr' or (t[0] == 'call' and t[1] == 'elemstore' and all_const_stores(t)):
                 return t, 0
             return None
+        if a[0] == 'lptr' and b[0] != 'lptr' and op in ('+', '-'):
+            k_ = self.const_int(b)
+            if k_ is not None:
+                return a[:4] + (a[4] + (k_ if op == '+' else -k_),)
+        if b[0] == 'lptr' and a[0] != 'lptr' and op == '+':
+            k_ = self.const_int(a)
+            if k_ is not None:
+                return b[:4] + (b[4] + k_,)
+        if a[0] == 'lptr' and b[0] == 'lptr' and a[:4] == b[:4]:
+            if op == '-':
+                return num(a[4] - b[4])
+            if op in ('==', '!=', '<', '>', '<=', '>='):
+                x, y = a[4], b[4]
+                return num(int({'==': x == y, '!=': x != y, '<': x < y, '>': x > y, '<=': x <= y, '>=': x >= y}[op]))
         pa, pb = ap(a), ap(b)
         if pa is not None and pb is None and op in ('+', '-'):
             k_ = self.const_int(b)
@@ -1122,12 +1348,22 @@ class Evaluator:
             tgt = strip(a, casts=True)
             if tgt.get('k') == 'param' and not tgt.get('foreign') and tgt['i'] < len(fr['args']) and fr['args'][tgt['i']][0] == 'alias':
                 return fr['args'][tgt['i']]
+            if tgt.get('k') == 'index' and self.lvalue(tgt, P, fr) is not None:
+                return ('alias', a, fr)
             if tgt.get('k') in ('member', 'local') or (tgt.get('k') == 'un' and tgt['op'] == '*'):
                 if tgt.get('k') == 'local':
                     cur = P.locals.get((fr['id'], tgt['id']))
                     if cur is not None and cur[0] == 'alias':
                         return cur
                 return ('alias', a, fr)
+        if ty.rstrip().endswith('*'):
+            # an array inside a local aggregate handed to a pointer parameter: the callee reads and writes the caller's elements
+            tgt = strip(a, casts=True)
+            if isinstance(tgt, dict) and tgt.get('k') in ('member', 'index', 'local') and ('[' in str(tgt.get('t', '')) or tgt.get('t') is None):
+                lv_ = self.lvalue(tgt, P, fr)
+                cur_ = self.lload(lv_, P) if lv_ is not None else None
+                if cur_ is not None and (cur_[0] in ('unk', 'elem') or (cur_[0] == 'call' and cur_[1] == 'elemstore')):
+                    return ('lptr', lv_[0], lv_[1], lv_[2], 0)
         return self.E(a, P, fr)
 
     def resolve(self, e, P, fr, obj):
@@ -1208,7 +1444,11 @@ class Evaluator:
         self.trace.max_depth = max(self.trace.max_depth, fr['depth'] + 1)
         sub = {'id': self.new_frame_id(), 'args': list(args), 'this': this_path, 'depth': fr['depth'] + 1, 'fn': fn}
         # execute on the single current path; callee paths are folded into an ite chain
-        outs = self.exec_block(stmts(fn.body), [P], sub, top=True)
+        self.call_stack.append(fn.q)
+        try:
+            outs = self.exec_block(stmts(fn.body), [P], sub, top=True)
+        finally:
+            self.call_stack.pop()
         exits = [p for p in outs if p.kind == 'exit']
         if exits:
             self.trace.exit_paths.extend(exits)
@@ -1832,8 +2072,9 @@ class Evaluator:
                     d_.append(('delta', (kx, v), s.get('l')))
             return tuple(d_)
         P.events.append(('loop', (cond_t, tuple((bp.kind, tuple(bp.conds[len(P.conds):]), tuple(bp.events[npre:]) + deltas(bp)) for bp in body_paths)), s.get('l')))
+        fill = self.fill_idiom(s, fr, before_l, body_paths, changed_l, changed_m, cond_t, len(P.conds), npre)
         for kx, vs in changed_l.items():
-            P.locals[kx] = ('call', 'loop', tuple(vs))
+            P.locals[kx] = fill[kx] if kx in fill else ('call', 'loop', tuple(vs))
         for kx, vs in changed_m.items():
             P.mem[kx] = ('call', 'loop', tuple(vs))
         outs = [P]
@@ -1841,6 +2082,49 @@ class Evaluator:
             r.conds.append(('sym', '@loop:cond'))
             outs.append(r)
         return outs
+
+    def fill_idiom(self, s, fr, before_l, body_paths, changed_l, changed_m, cond_t, nconds, npre):
+        """for (i = 0; i < N; ++i) V[i] = e(i);  with nothing else assigned, no early exit and e not reading V: afterwards
+        V is vfill(V before, N, e(@fill)) - elements 0..N-1 are e(i), the size is unchanged.  Returns {local key: value}."""
+        if s['k'] != 'for' or changed_m or cond_t is None or any(p.kind != 'fall' for p in body_paths):
+            return {}
+        if not (cond_t[0] == 'cmp' and cond_t[1] == '<' and cond_t[2][0] == 'call' and cond_t[2][1] == 'loopvar' and cond_t[2][2][0] == num(0)):
+            return {}
+        ctr, N = cond_t[2], cond_t[3]
+        if any(x[0] == 'sym' and x[1].startswith('@loop:') for x in subterms(N)):
+            return {}
+        keys = list(changed_l)
+        ck = [kx for kx in keys if before_l.get(kx) == ctr]
+        vk = [kx for kx in keys if kx not in ck]
+        if len(ck) != 1 or len(vk) != 1:
+            return {}
+        if any(p.locals.get(ck[0]) != ('add', (ctr, num(1))) for p in body_paths):
+            return {}
+        vin = before_l.get(vk[0])
+        if not (vin is not None and vin[0] == 'call' and vin[1] == 'loopvar'):
+            return {}
+        lam = None
+        for p in reversed(body_paths):
+            if any(e_[0] not in ('cond', 'branch') for e_ in p.events[npre:]):
+                return {}
+            v = p.locals.get(vk[0])
+            if not (v is not None and v[0] == 'call' and v[1] == 'elemstore' and v[2][0] == vin and v[2][1] == ctr):
+                return {}
+            ev = v[2][2]
+            if any(x == vin for x in subterms(ev)):
+                return {}
+            cs = p.conds[nconds:]
+            if lam is None:
+                lam = ev
+            else:
+                c_ = cs[0] if len(cs) == 1 else (('and', tuple(cs)) if cs else None)
+                if c_ is None:
+                    return {}
+                lam = ('ite', c_, ev, lam)
+        if lam is None:
+            return {}
+        lam = subst_term(lam, ctr, ('sym', '@fill'))
+        return {vk[0]: ('call', 'vfill', (vin[2][0], N, lam))}
 
     # ------------------------------------------------------------ entry
     def run(self, fn, arg_names=None, bind=None):
